@@ -66,16 +66,6 @@ func KFDefs() []KFDef {
 				false, TagCastMulti),
 		},
 		{
-			Name: KFEqMixed,
-			What: "any-object == walks the fields in map order and stops at the first unequal one; a field whose two values differ in kind panics in Go (ValueString.IsEqual asserts the kind, C13 finding): whether `b == a` prints false or kills the host depends on which key is visited first",
-			Sig:  "^process-outcome:crash-in-some-runs:interface conversion: value\\.Value is value\\.Value[A-Za-z]+, not value\\.Value[A-Za-z]+",
-			Tag:  TagEqMixed,
-			// eight keys fill one map bucket; Go rotates the insertion order by a random offset: the
-			// string-valued key `k` is reached before the unequal key `n` from 4 of the 8 offsets
-			Witness: witness("w-eq-mixed", map[string]string{"main": "fn main() {\n    let a = new { ? };\n    a.set(\"k\", \"x\");\n    a.set(\"f1\", 0);\n    a.set(\"f2\", 0);\n    a.set(\"f3\", 0);\n    a.set(\"n\", 1);\n    a.set(\"f4\", 0);\n    a.set(\"f5\", 0);\n    a.set(\"f6\", 0);\n    let b = new { ? };\n    b.set(\"k\", 5);\n    b.set(\"f1\", 0);\n    b.set(\"f2\", 0);\n    b.set(\"f3\", 0);\n    b.set(\"n\", 2);\n    b.set(\"f4\", 0);\n    b.set(\"f5\", 0);\n    b.set(\"f6\", 0);\n    println(b == a);\n}\n"},
-				false, TagEqMixed),
-		},
-		{
 			Name: KFMangleCollide,
 			What: "mangled variable names are `@module_name<counter>` with one counter per source name shared by all modules: `x` with counter 10 and `x1` with counter 0 are the same name; which variables collide depends on the order in which modules and functions are compiled (map order): `9 15` or `9 20` printed for the same program, slots differ, some runs kill the host",
 			Sig:  "^(code|vm-output|vm-hostcalls|vm-outcome|process-outcome):",
